@@ -2415,13 +2415,15 @@ func init() {
 
 func c09R7(c *Ctx, r *Report) {
 	const rule = "C09.R7"
-	r.Describe(rule, "mir/gen: a call of ConstValue.String() (symbols.ConstValue / consteval.ConstValue) occurs only in a function that first tries AsString() on the value")
+	r.Describe(rule, "mir/gen: a call of ConstValue.String() (symbols.ConstValue / consteval.ConstValue) occurs only in a function that first tries AsString() on the value or has established with AsInt() that it is an integer")
 	n := 0
 	for _, fn := range c.AllFns(pkgMIRGen) {
 		info := fn.Info()
 		hasAsString := false
 		for _, cl := range callsIn(fn.Decl.Body, true) {
-			if f := callee(info, cl); f != nil && f.Name() == "AsString" {
+			// AsString: the string case is taken out first; AsInt: the value is known to be an integer, whose
+			// display form is its literal form
+			if f := callee(info, cl); f != nil && (f.Name() == "AsString" || f.Name() == "AsInt") {
 				hasAsString = true
 			}
 		}
